@@ -11,6 +11,7 @@ import (
 	"time"
 
 	sdk "github.com/cosmos/cosmos-sdk/types"
+	"github.com/cosmos/cosmos-sdk/x/authz"
 	"github.com/cosmos/cosmos-sdk/types/query"
 	banktypes "github.com/cosmos/cosmos-sdk/x/bank/types"
 
@@ -225,6 +226,17 @@ func (w *World) Project(tr *Track) (res J) {
 	res["bcn"] = w.projBcn(ctx, tr)
 	res["str"] = w.projStr(ctx)
 	res["vest"] = w.projVest(ctx)
+	// x/authz grants: "granter/grantee/type" -> 1
+	grants := J{}
+	w.App.AuthzKeeper.IterateGrants(ctx, func(granter, grantee sdk.AccAddress, g authz.Grant) bool {
+		t := "?"
+		if a, err := g.GetAuthorization(); err == nil {
+			t = msgTypeOfURL(a.MsgTypeURL())
+		}
+		grants[w.nameOf(granter.String())+"/"+w.nameOf(grantee.String())+"/"+t] = 1
+		return false
+	})
+	res["grants"] = grants
 	if !w.InBlock {
 		// a panicking query server is an observation (C17), not a harness failure
 		func() {
